@@ -1,4 +1,5 @@
 import Driver.C20
+import Driver.C16
 open Driver
 
 partial def loop (h : IO.FS.Stream) (out : IO.FS.Stream) (f : List String → String → Ans) : IO Unit := do
@@ -15,5 +16,6 @@ def main (args : List String) : IO UInt32 := do
   let stdin ← IO.getStdin
   let stdout ← IO.getStdout
   match args with
+  | ["C16"] => loop stdin stdout C16.step; return 0
   | ["C20"] => loop stdin stdout C20.step; return 0
   | _ => IO.eprintln "usage: driver <property> < trace"; return 2
